@@ -77,10 +77,20 @@ def run(prop, tier, seed):
 
     # ------------------------------------------------------------------ flags: exhaustive
     real = real_flag_codecs()
-    for c in gen["flags"]:
-        name, width, k = c["name"], c["width"], len(c["fields"])
+    # the codecs to exercise come from the SPECIFICATION (never from the translator's output, which may have
+    # a gap exactly where the code changed); widths are the format's: one byte in triggers, a u16 elsewhere
+    from common import load_spec
+
+    genflags = {c["name"]: c for c in gen.get("flags", [])}
+    for sc in load_spec()["flags"]:
+        name = sc["name"]
+        width = 8 if name.startswith("trigger_") else 16
         dec, enc, names = real[name]
-        if names != [f["name"] for f in c["fields"]]:
+        k = len(names)
+        c = genflags.get(name)
+        if c is None:
+            out.disagreements.append({"op": "flags", "what": "no generated codec for %s (translator gap)" % name})
+        elif names != [f["name"] for f in c["fields"]]:
             out.disagreements.append({"op": "flags", "what": "field names/order of %s differ: real %s generated %s" % (name, names, [f["name"] for f in c["fields"]])})
         dom = range(0, 1 << width) if (width <= 8 or thorough) else sorted(set(list(range(0, 4096)) + [rng.randrange(1 << width) for _ in range(4096)] + [(1 << width) - 1, 1 << (width - 1)] + [1 << i for i in range(width)]))
         exhaustive = width <= 8 or thorough
